@@ -94,8 +94,11 @@ class Interp:
         elif kind == "importfrom":
             mod, nm = payload
             m = self.world.module_by_dotted(mod)
-            if m is not None:
+            sub = self.world.module_by_dotted(mod + "." + nm)
+            if m is not None and (nm in m.names or sub is None):
                 v = self.global_lookup(nm, m, node)
+            elif sub is not None:
+                v = ("module", sub)
             else:
                 sub = self.world.module_by_dotted(mod + "." + nm)
                 if sub is not None:
@@ -754,6 +757,18 @@ class Interp:
         return self.binop(node.op, l, r, node, frame)
 
     def e_ListComp(self, node, frame):
+        if len(node.generators) == 1 and not node.generators[0].ifs:
+            it = self.eval(node.generators[0].iter, frame)
+            if isinstance(it, SSeq):
+                # [f(x) for x in seq]: same length; f is evaluated once on an arbitrary element
+                sub = Frame(frame.module, frame.func, parent=frame)
+                elem = SOpaque(f"element of {it.label}")
+                self.assign(node.generators[0].target, elem, sub)
+                out = SSeq(it.base_len, label=f"map({it.label})")
+                if self.run.branch(it.length() > 0):
+                    out.template = self.eval(node.elt, sub)
+                out.appended = [out.template for _ in it.appended] if it.appended else []
+                return out
         out = []
         self._comp(node.generators, 0, frame, lambda fr: out.append(self.eval(node.elt, fr)))
         return out
@@ -802,6 +817,14 @@ class Interp:
                 self._comp(gens, i + 1, sub, emit)
 
     def e_Call(self, node, frame):
+        if isinstance(node.func, ast.Name) and node.func.id == "super" and not node.args:
+            f = frame
+            while f is not None and (f.func is None or f.func.owner is None):
+                f = f.parent
+            if f is None:
+                raise Unsupported("super() outside a method", node)
+            params = [p.arg for p in f.func.node.args.args]
+            return _Super(f.locals[params[0]], f.func.owner)
         fn = self.eval(node.func, frame)
         args = []
         for a in node.args:
@@ -910,6 +933,15 @@ class Interp:
             if isinstance(op, ast.Eq):
                 if l is r:
                     return True
+            if self.config.get("permissive") and (isinstance(l, SOpaque) or isinstance(r, SOpaque)):
+                # comparison with an unknown value: an uninterpreted boolean, stable per operand pair
+                key = ("cmp", type(op).__name__, id(l) if isinstance(l, (SOpaque, SObj)) else repr(l),
+                       id(r) if isinstance(r, (SOpaque, SObj)) else repr(r))
+                cache = self.run.__dict__.setdefault("_cmp_cache", {})
+                if key not in cache:
+                    cache[key] = self.run.fresh_bool("cmp")
+                self.run.assumptions.add("[permissive] comparisons with unmodelled values are uninterpreted booleans")
+                return cache[key]
             raise Unsupported(f"comparison of {type(l).__name__} and {type(r).__name__}", node)
         fn = {ast.Eq: operator.eq, ast.NotEq: operator.ne, ast.Lt: operator.lt, ast.LtE: operator.le,
               ast.Gt: operator.gt, ast.GtE: operator.ge}[type(op)]
@@ -1092,6 +1124,18 @@ class Interp:
                 return obj.value
             if name == "name":
                 return obj.name
+        if isinstance(obj, _Super):
+            for b in self.class_bases(obj.cls):
+                if isinstance(b, SClass):
+                    m = self.find_method(b, name)
+                    if m is not None:
+                        decos = self.decorators(m.node)
+                        if "classmethod" in decos:
+                            return m.bind(obj.obj if isinstance(obj.obj, SClass) else obj.obj.cls)
+                        if "staticmethod" in decos:
+                            return m
+                        return m.bind(obj.obj)
+            raise Unsupported(f"super().{name} not found in the bases the engine reads", node)
         if isinstance(obj, SLib):
             return SLib(obj.dotted + "." + name)
         if isinstance(obj, SExcClass) and name == "__name__":
@@ -1258,6 +1302,9 @@ class Interp:
         hook = self.config.get("instantiate", {}).get(f"{cls.module.relpath}::{cls.qualname}")
         if hook is not None:
             return hook(self, cls, args, kwargs, node, frame)
+        if f"{cls.module.relpath}::{cls.qualname}" in self.config.get("opaque_classes", ()) or cls.module.relpath in self.config.get("opaque_class_modules", ()):
+            self.run.assumptions.add(f"[opaque class] constructing {cls.qualname} is not modelled: unknown object, no side effects assumed")
+            return SOpaque(f"{cls.qualname} instance")
         obj = SObj(cls)
         init = self.find_method(cls, "__init__")
         if init is not None:
@@ -1296,6 +1343,12 @@ class Interp:
                     continue
                 fields[nm] = st.value if st.value is not None else _REQUIRED
         return fields
+
+
+class _Super:
+    def __init__(self, obj, cls):
+        self.obj = obj
+        self.cls = cls
 
 
 class _Required:
